@@ -372,7 +372,7 @@ def camp_tree_huff(rnd, tier, kinds=QUAD_HUFF, binary=False):
 def camp_c01(rnd, tier):
     b = camp_tree_plain(rnd, tier, QUAD_PLAIN)
     # more than 2^27 symbols: more than 65 536 superblocks per level
-    long_quads(b, rnd, [rnd.choice(QUAD_PLAIN)] if tier == "quick" else ["QWT256", "QWT512Pfs"])
+    long_quads(b, rnd, [rnd.choice(["QWT256", "QWT256Pfs"])] if tier == "quick" else ["QWT256Pfs", "QWT512"])
     return b
 
 
@@ -476,7 +476,7 @@ def camp_c05(rnd, tier):
         o = b.newq(kind, "u8", "default", Seqn.from_values([]))
         quad_queries(b, o, Seqn.from_values([]), rnd)
     # more than 2^27 symbols: more than 65 536 superblocks
-    long_quads(b, rnd, [rnd.choice(["RSQ256", "RSQ512"])] if tier == "quick" else ["RSQ256", "RSQ512", "QV"])
+    long_quads(b, rnd, ["RSQ256"] if tier == "quick" else ["RSQ256", "RSQ512", "QV"])
     return b
 
 
@@ -722,7 +722,6 @@ def long_quads(b, rnd, kinds):
     """quad structures over more than 2^27 symbols (more than 65 536 superblocks): a leading run of
     one symbol, then a tail with all four symbols; a stored superblock id or counter narrower than
     the length shows"""
-    base = (1 << 27) + rnd.choice([0, 1, 255, 4097, 70001])
     f = rnd.randrange(4)
     others = [x for x in range(4) if x != f]
     x, y, z = others
@@ -730,6 +729,8 @@ def long_quads(b, rnd, kinds):
     vals = tail.values()
     n = len(vals)
     for kind in kinds:
+        # 65 536 superblocks are 2^27 symbols with 256-symbol blocks and 2^28 with 512-symbol blocks
+        base = (1 << (28 if "512" in kind else 27)) + rnd.choice([0, 1, 255, 4097, 70001])
         b.reset()
         o = b.newbigq(kind, base, f, tail)
         rel = sorted(set([-70000, -2049, -1, 0, 1, 2, 255, 256, 2047, 2048, n // 2, n - 1, n, n + 1] + [rnd.randrange(n) for _ in range(10)]))
